@@ -1,10 +1,12 @@
 #!/bin/sh
-# seedconfirm.sh <property-id> <k> — confirm a sub-agent's seeded change in its scratch worktree /tmp/wt-<id>:
+# seedconfirm.sh <property-id> <k> — confirm a sub-agent's seeded change /tmp/wt-<id>/out/<k> in a scratch worktree of its own (/tmp/wtc-<id>-<k>, removed afterwards):
 # the patch applies on a clean checkout, the library builds, the repository's own test suite passes, and the
 # demonstration behaves differently on the changed and the unchanged tree.  Writes <out>/confirm.txt.
-ID=$1; K=$2; WT=/tmp/wt-$ID; OUT=$WT/out/$K
+ID=$1; K=$2; OUT=/tmp/wt-$ID/out/$K; WT=/tmp/wtc-$ID-$K
+test -f "$OUT/patch.diff" || exit 2
+git -C /repo worktree remove --force "$WT" >/dev/null 2>&1
+git -C /repo worktree add --detach "$WT" HEAD >/dev/null 2>&1 || exit 2
 cd "$WT" || exit 2
-git checkout -q -- include
 {
 echo "== apply"; git apply --check "$OUT/patch.diff" && git apply "$OUT/patch.diff" && echo applied || { echo APPLY-FAILED; exit 0; }
 git diff --stat -- include
@@ -25,6 +27,5 @@ echo "== demo on the unchanged tree"
 g++ -std=c++20 -O1 -I"$WT/include" "$OUT/demo.cpp" -o "$WT/_demo_clean" -pthread 2>&1 | tail -5
 ( cd "$OUT" && timeout 300 "$WT/_demo_clean" 2>&1 | tail -25; echo "exit=$?" )
 } > "$OUT/confirm.txt" 2>&1
-rm -rf "$WT/_b" "$WT/_demo_changed" "$WT/_demo_clean" "$WT/_cfg.log" "$WT/_build.log"
-git checkout -q -- include
+cd /; git -C /repo worktree remove --force "$WT" >/dev/null 2>&1; rm -rf "$WT"
 grep -E "tests passed|tests failed|APPLY-FAILED|BUILD-FAILED|BUILD-OK" "$OUT/confirm.txt"
